@@ -98,7 +98,7 @@ def corrupt_leaf(sym, fmt, path, rule, maxlen, getter, k, via="loads"):
     doc = base_doc(fmt, k)
     holder, key = walk(doc, path)
     kind = sym.choice("kind", KINDS)
-    v = make_value(sym, kind, "v", maxlen)
+    v = make_value(sym, kind, "v", maxlen, rule)
     d = in_domain(sym, rule, kind, v)
     if d is None or d is True:
         return
